@@ -3,6 +3,7 @@ package kafka
 import (
 	"bytes"
 	"io"
+	"time"
 )
 
 // Symbolic self-tests of the executor (spec ENGINE.json, run before every check): VH_E_ok_* must be proved without
@@ -185,4 +186,14 @@ func VH_E_bad_SendWithoutReceiver() {
 	go func() { ch <- 1; sent = true }()
 	vhRunAll()
 	vhAssert(sent, "unbuffered-send-completed-without-a-receiver") // must be refuted
+}
+
+// time.Sleep lets the other goroutines run and returns when nothing else can run (the timer fires)
+func VH_E_ok_SleepYields() {
+	ran := false
+	go func() { ran = true }()
+	time.Sleep(time.Millisecond)
+	vhAssert(ran, "other-goroutines-run-while-one-sleeps")
+	time.Sleep(0)
+	vhReach("e-sleep")
 }
